@@ -264,6 +264,24 @@ fn c17(replay: Option<(usize, usize, usize, usize)>) -> (bool, String, String) {
     (false, "null".into(), "grid g1 0..4 x g2 0..3 x capacity {0,1,2,3,4,5,7,8,16}".into())
 }
 
+// ---- C14: zorro constants and mul_by_a on the real types ----
+fn c14() -> (bool, String, String) {
+    use ark_bulletproofs::curve::zorro::{Fq, Fr as ZFr, G1Affine, Parameters};
+    use ark_ec::short_weierstrass::SWCurveConfig;
+    let mut r = rng(14);
+    let mut xs = vec![Fq::zero(), Fq::one(), -Fq::one(), Fq::from(2u64), Fq::from(u64::MAX)];
+    for _ in 0..64 { xs.push(Fq::rand(&mut r)); }
+    for (i, x) in xs.iter().enumerate() {
+        if <Parameters as SWCurveConfig>::mul_by_a(*x) != <Parameters as SWCurveConfig>::COEFF_A * x {
+            return (true, format!("{}", i), format!("mul_by_a(x) != COEFF_A * x for sample #{} (0, 1, -1, 2, 2^64-1, then ChaCha(seed 14) elements)", i));
+        }
+    }
+    let g = G1Affine::generator();
+    if !g.is_on_curve() { return (true, "\"generator\"".into(), "declared generator is not on the declared curve".into()); }
+    if !g.mul_bigint(ZFr::MODULUS).is_zero() { return (true, "\"order\"".into(), "[r]G != O for r = modulus of the declared scalar field".into()); }
+    (false, "null".into(), "mul_by_a on 69 field elements; generator on curve; [r]G = O".into())
+}
+
 fn nums(s: &str) -> Vec<u64> { s.split(|c: char| !c.is_ascii_digit()).filter(|x| !x.is_empty()).map(|x| x.parse().unwrap()).collect() }
 
 fn main() {
@@ -276,6 +294,7 @@ fn main() {
         "C13" => c13(),
         "C15" => c15(rep.and_then(|v| v.first().cloned())),
         "C16" => c16(rep.filter(|v| v.len() == 2).map(|v| (v[0], v[1] as u32))),
+        "C14" => c14(),
         "C17" => c17(rep.filter(|v| v.len() == 4).map(|v| (v[0] as usize, v[1] as usize, v[2] as usize, v[3] as usize))),
         _ => (false, "null".into(), "no directed search for this property".into()),
     };
